@@ -34,6 +34,7 @@ Rev == Opt(FALSE, TRUE, "none")
 Key == Opt(FALSE, FALSE, "key")
 By  == Opt(FALSE, FALSE, "by")
 RevKey == Opt(FALSE, TRUE, "key")
+IdKey == Opt(FALSE, FALSE, "idkey")
 FullPalette ==
     {PlainCfg,
      [PlainCfg EXCEPT !.ord = Ign], [PlainCfg EXCEPT !.ord = Rev], [PlainCfg EXCEPT !.ord = Key], [PlainCfg EXCEPT !.ord = RevKey],
@@ -41,7 +42,10 @@ FullPalette ==
      [PlainCfg EXCEPT !.partial_ord = Rev], [PlainCfg EXCEPT !.eq = Ign], [PlainCfg EXCEPT !.partial_eq = Ign],
      [PlainCfg EXCEPT !.hash = Key, !.ord = Key], [PlainCfg EXCEPT !.hash = By, !.eq = Key], [PlainCfg EXCEPT !.partial_eq = Key],
      [PlainCfg EXCEPT !.partial_eq = By], [PlainCfg EXCEPT !.eq = By], [PlainCfg EXCEPT !.hash = Key],
-     [PlainCfg EXCEPT !.partial_ord = Key, !.ord = Rev], [PlainCfg EXCEPT !.partial_ord = By, !.partial_eq = By]}
+     [PlainCfg EXCEPT !.partial_ord = Key, !.ord = Rev], [PlainCfg EXCEPT !.partial_ord = By, !.partial_eq = By],
+     \* `key = $` on the more specific attribute opts out of the less specific attribute's key
+     [PlainCfg EXCEPT !.hash = IdKey, !.ord = Key], [PlainCfg EXCEPT !.eq = IdKey, !.ord = RevKey], [PlainCfg EXCEPT !.partial_ord = IdKey, !.ord = Key],
+     [PlainCfg EXCEPT !.hash = IdKey, !.eq = Key]}
 SmallPalette == {PlainCfg, [PlainCfg EXCEPT !.ord = Ign], [PlainCfg EXCEPT !.ord = RevKey], [PlainCfg EXCEPT !.hash = Ign]}
 Palette == IF PALETTE = "full" THEN FullPalette ELSE SmallPalette
 
